@@ -4,6 +4,7 @@ from . import build, ir, core
 from .build import AnalysisBroken
 
 _mods = {}
+CFG = ["release"]     # configuration the composite parts analyse (the thorough tier repeats them for the assert build)
 
 
 def module(cfg, kind, funcs=None):
@@ -114,7 +115,7 @@ GUARD_TXT = ("R-GUARD/R-CONJ: each frozen row of rules/guards.json names a funct
 
 def part_guards(pid):
     def run(ctx):
-        n = guard_rows(ctx, None if pid == "C12" else [pid])
+        n = guard_rows(ctx, None if pid == "C12" else [pid], CFG[0])
         ctx.explanation += GUARD_TXT + " "
         ctx.note("guard_rows", n)
         return n
@@ -191,7 +192,7 @@ def reach(pid, m=None):
     if pid in _reach:
         return _reach[pid]
     from . import rules_alloc
-    m = m or module("release", "ssa")
+    m = m or module(CFG[0], "ssa")
     if pid not in PROP_ENTRIES:
         fns = {f.name for f in m.defined()}
     else:
@@ -231,13 +232,13 @@ def auto_relations(pid):
 def part_tables(rels, only_keys=None, pid=None):
     def run(ctx):
         from . import rules_tab
-        m = module("release", "ssa")
+        m = module(CFG[0], "ssa")
         rl = list(rels)
         if pid is not None:
             for r in sorted(auto_relations(pid), key=lambda x: int(x[1:])):
                 if r not in rl:
                     rl.append(r)
-        rules_tab.run(ctx, m, "release", rl, only_keys)
+        rules_tab.run(ctx, m, CFG[0], rl, only_keys)
         if True:
             ctx.explanation += TAB_TXT % "; ".join(TAB_DESC[r] for r in rl) + " "
             ctx.floor("R-TAB", "relations evaluated", len([o for o in ctx.obligations if o["rule"] == "R-TAB"]), len(rels))
@@ -264,7 +265,7 @@ def part_bw(pid):
         inl = sorted({r["fn"] for r in rows if r["mod"] == "inl"})
 
         def gm(kind, fn):
-            return module("release", kind, inl if kind == "inl" else None)
+            return module(CFG[0], kind, inl if kind == "inl" else None)
         n = rules_bw.check(ctx, gm, [pid] if pid else None)
         ctx.explanation += ("R-BW: every store through the output buffer parameter (and every call receiving &buf[index]) is explored with relation "
                             "facts between the index and the documented bound, learnt from branch conditions on the same SSA values and carried through "
@@ -276,7 +277,7 @@ def part_bw(pid):
 def part_cform(pid):
     def run(ctx):
         from . import rules_cform
-        n = rules_cform.check(ctx, module("release", "ssa"), "release", [pid], funcs=reach(pid)[0] if pid in PROP_ENTRIES else None)
+        n = rules_cform.check(ctx, module(CFG[0], "ssa"), CFG[0], [pid], funcs=reach(pid)[0] if pid in PROP_ENTRIES else None)
         ctx.explanation += ("R-CFORM: the value a function stores is evaluated exactly as an expression DAG over opaque leaves (_ipow(7,e) = 7^e, a callee's "
                             "out-value, a bit field) for the whole finite domain of those leaves and compared with the documented closed form. ")
         ctx.floor("R-CFORM", "closed-form instances for %s" % pid, n, 1)
@@ -285,7 +286,7 @@ def part_cform(pid):
 
 def part_ovf(ctx):
     from . import rules_ovf
-    n = rules_ovf.check(ctx, module("release", "ssa"), "release")
+    n = rules_ovf.check(ctx, module(CFG[0], "ssa"), CFG[0])
     ctx.explanation += ("R-OVF: the functions that call the repository's own overflow predicates are explored with free (non-negative) coordinate "
                         "inputs; at every nsw add/sub/mul/shl the operand ranges learnt from exactly interpreted path conditions must exclude signed wrap. ")
     ctx.floor("R-OVF", "overflow-checked helpers", n, 2)
@@ -293,14 +294,14 @@ def part_ovf(ctx):
 
 def part_errdisc(ctx):
     from . import rules_errdisc
-    rules_errdisc.check(ctx, module("release", "ssa"), "release")
+    rules_errdisc.check(ctx, module(CFG[0], "ssa"), CFG[0])
     ctx.explanation += ("R-ERRDISC: every call of an H3Error-returning function uses the returned code, except the frozen, individually justified (caller, callee) exceptions. ")
 
 
 def part_idx(ctx):
     from . import rules_idx
-    n = rules_idx.check(ctx, "release", ctx.tier, ir.exported_api())
-    rules_idx.check_int(ctx, "release", ctx.tier, ir.exported_api())
+    n = rules_idx.check(ctx, CFG[0], ctx.tier, ir.exported_api())
+    rules_idx.check_int(ctx, CFG[0], ctx.tier, ir.exported_api())
     ctx.explanation += ("R-IDX: every exported function taking an index is explored (fully inlined) with the base-cell field assumed 122..127 and the "
                         "reserved/direction field 7: no table subscript that depends on the field may be reachable with a value at or beyond the table's extent "
                         "(quick tier: the %d anchor functions; thorough: all). " % len(rules_idx.QUICK_FUNCS))
@@ -308,7 +309,7 @@ def part_idx(ctx):
 
 def part_sib(ctx):
     from . import rules_sib
-    rules_sib.check(ctx, module("release", "ssa"), "release")
+    rules_sib.check(ctx, module(CFG[0], "ssa"), CFG[0])
     ctx.explanation += ("R-SIB: every call that receives a hole of the polygon together with a bounding box uses bboxes[hole index + 1], "
                         "the convention of the writer bboxesFromGeoPolygon (sibling cross-check). ")
 
@@ -316,12 +317,12 @@ def part_sib(ctx):
 def part_bitprov(which, pid=None):
     def run(ctx):
         from . import rules_bitprov
-        m = module("release", "ssa")
+        m = module(CFG[0], "ssa")
         n0 = len([o for o in ctx.obligations if o["rule"] == "R-BITPROV"])
         if pid:
-            getattr(rules_bitprov, "check_" + which)(ctx, m, "release", ctx.tier, pid, reach(pid, m)[0])
+            getattr(rules_bitprov, "check_" + which)(ctx, m, CFG[0], ctx.tier, pid, reach(pid, m)[0])
         else:
-            getattr(rules_bitprov, "check_" + which)(ctx, m, "release", ctx.tier)
+            getattr(rules_bitprov, "check_" + which)(ctx, m, CFG[0], ctx.tier)
         ctx.explanation += rules_bitprov.TEXT[which] + " "
         ctx.floor("R-BITPROV", "bit-exact instances (%s)" % which, len([o for o in ctx.obligations if o["rule"] == "R-BITPROV"]) - n0 + len([b for b in ctx.brokens if b["rule"] == "R-BITPROV"]), rules_bitprov.FLOOR[which])
     return run
@@ -330,7 +331,7 @@ def part_bitprov(which, pid=None):
 def part_hashmod(fns, floor):
     def run(ctx):
         from . import rules_sib
-        n = rules_sib.check_hashmod(ctx, module("release", "ssa"), "release", fns if not isinstance(fns, str) else reach(fns)[0])
+        n = rules_sib.check_hashmod(ctx, module(CFG[0], "ssa"), CFG[0], fns if not isinstance(fns, str) else reach(fns)[0])
         ctx.explanation += ("R-SIB hashmod: every open-addressing probe `loc = key % M; ... loc = (loc + 1) % M'` wraps around with the modulus it started "
                             "with (M' is the same SSA value as M); instances are found from the IR (rem of phi+1 whose phi web is fed by a rem and subscripts memory). ")
         ctx.floor("R-SIB", "hash probe loops", n, floor)
@@ -340,7 +341,7 @@ def part_hashmod(fns, floor):
 def part_argmin(ctx):
     from . import rules_argmin
     try:
-        n = rules_argmin.check(ctx, module("release", "ssa"), "release")
+        n = rules_argmin.check(ctx, module(CFG[0], "ssa"), CFG[0])
     except AnalysisBroken as e:
         ctx.broken("R-ARGMIN", str(e)); n = 0
     ctx.explanation += ("R-ARGMIN: the face-selection loop of _geoToClosestFace compares every centre of faceCenterPoint (exits: exhaustion at the table extent, or a "
@@ -351,7 +352,7 @@ def part_argmin(ctx):
 def part_drain(only):
     def run(ctx):
         from . import rules_iterloop
-        n = rules_iterloop.check(ctx, module("release", "ssa"), "release", only)
+        n = rules_iterloop.check(ctx, module(CFG[0], "ssa"), CFG[0], only)
         ctx.explanation += ("R-DRAIN: the loop that drains the child iterator into the output array stores the element it just tested, before the single "
                             "iterStepChild, at a counter running 0,1,2,..; with R-BITPROV iter-init/iter-step (start = smallest child, step = next child in index "
                             "order, 0 after the last) this gives by induction that the output is the documented child set in increasing order. ")
@@ -380,12 +381,12 @@ ERRFLOW_CALLERS = {
 def part_errflow(pid):
     def run(ctx):
         from . import rules_errflow, rules_ret
-        m = module("release", "ssa")
+        m = module(CFG[0], "ssa")
         if not getattr(rules_ret.check, "last_sets", None) or getattr(rules_ret.check, "last_mod", None) is not m:
             sub = core.Ctx(ctx.pid)
-            rules_ret.check(sub, m, "release", ir.exported_api())
+            rules_ret.check(sub, m, CFG[0], ir.exported_api())
             rules_ret.check.last_mod = m
-        n = rules_errflow.check(ctx, m, "release", rules_ret.check.last_sets, None if pid == "C12" else (set(ERRFLOW_CALLERS.get(pid, ())) | reach(pid, m)[0]))
+        n = rules_errflow.check(ctx, m, CFG[0], rules_ret.check.last_sets, None if pid == "C12" else (set(ERRFLOW_CALLERS.get(pid, ())) | reach(pid, m)[0]))
         ctx.explanation += ("R-ERRFLOW: for every used call of an H3Error-returning function and every non-zero code in the callee's value set, the caller explored "
                             "from the call with that result cannot reach `return E_SUCCESS` on an exactly interpreted path (one frozen, justified exception). ")
         if pid == "C12":
@@ -396,7 +397,7 @@ def part_errflow(pid):
 def part_fold(pid):
     def run(ctx):
         from . import rules_fold
-        n = rules_fold.check(ctx, module("release", "ssa"), "release", [pid])
+        n = rules_fold.check(ctx, module(CFG[0], "ssa"), CFG[0], [pid])
         ctx.explanation += ("R-FOLD: the edge length / cell area is accumulated as one term per consecutive pair of boundary vertices (pair sets derived from the loop "
                             "counter, bound and subscripts for numVerts = 2..10; accumulator starts at 0.0, every term added once, result stored). ")
         ctx.floor("R-FOLD", "fold instances for %s" % pid, n, 1)
@@ -405,7 +406,7 @@ def part_fold(pid):
 
 def part_walk(ctx):
     from . import rules_walk
-    n = rules_walk.check(ctx, module("release", "ssa"), "release")
+    n = rules_walk.check(ctx, module(CFG[0], "ssa"), CFG[0])
     ctx.explanation += ("R-WALK: typestate on the control skeleton of the success path of gridRingUnsafe / gridDiskDistancesUnsafe for k = 1..5 (callees replaced by "
                         "effect summaries, cells opaque): every walk step starts from a cell that was tested with isPentagon, every cell written was tested. ")
     ctx.floor("R-WALK", "in-place ring walks", n + len([b for b in ctx.brokens if b["rule"] == "R-WALK"]), 2)
@@ -413,7 +414,7 @@ def part_walk(ctx):
 
 def part_fmt(ctx):
     from . import rules_fmt
-    n = rules_fmt.check(ctx, module("release", "ssa"), "release")
+    n = rules_fmt.check(ctx, module(CFG[0], "ssa"), CFG[0])
     ctx.explanation += ("R-FMT: every printf/scanf-family call has a constant format; h3ToString uses exactly one unpadded lower-case 64-bit %x applied to "
                         "the whole index and written to str, its longest output (derived from the format) + NUL is never reachable with a smaller sz; "
                         "stringToH3 parses with the same conversion into the H3Index it stores. ")
@@ -422,7 +423,7 @@ def part_fmt(ctx):
 
 def part_ret(ctx):
     from . import rules_ret
-    n = rules_ret.check(ctx, module("release", "ssa"), "release", ir.exported_api())
+    n = rules_ret.check(ctx, module(CFG[0], "ssa"), CFG[0], ir.exported_api())
     ctx.explanation += ("R-RET: value-set fixpoint over everything typed H3Error in debug info (returns, parameters, iterator error fields): every "
                         "function can only return codes 0..15. ")
     ctx.floor("R-RET", "functions returning H3Error", n, 60)
@@ -448,6 +449,20 @@ PARTS = {
 
 def composite(pid):
     def run(ctx):
+        if ctx.tier == "thorough" and CFG[0] == "release":
+            # as deep as the machinery goes: the whole property again on the assertion-enabled build (different IR: NEVER()/assert() branches)
+            run_one(ctx)
+            CFG[0] = "assert"
+            _reach.clear()
+            try:
+                run_one(ctx)
+            finally:
+                CFG[0] = "release"
+                _reach.clear()
+            return
+        run_one(ctx)
+
+    def run_one(ctx):
         for part in PARTS[pid]:
             part(ctx)
         # the validity predicate is part of every property whose code reaches isValidCell
